@@ -63,6 +63,23 @@ func (Hooks) Pre(kind int, obj interface{}, site string) int {
 	return g.ID
 }
 
+// CondAdd registers the caller as a waiter of the sync.Cond obj (the first
+// half of Cond.Wait; it does not yield).
+func (Hooks) CondAdd(obj interface{}, site string) int {
+	s, g := cur()
+	if g == nil {
+		return -1
+	}
+	s.mu.Lock()
+	p := pending{obj: objKey(obj), keep: obj}
+	cs := s.condOf(&p)
+	g.condNotified = false
+	cs.waiters = append(cs.waiters, g)
+	s.logf("g%d condadd #%d %s", g.ID, s.label(p.obj, obj), site)
+	s.mu.Unlock()
+	return g.ID
+}
+
 func (Hooks) Post(tok int, kind int, obj interface{}, site string, aux int) {
 	s := current.Load()
 	if s == nil {
